@@ -24,11 +24,17 @@ RULE = ("seeded op scripts on frg::rbtree (less on key) and frg::rbtree_order ov
         "least-hit fix_insert/fix_remove case), random/monotone/sawtooth streams with key spaces 3, 10, 1000, large trees "
         "(digest of the full state), exhaustive sequences over <= 6 elements; after EVERY op all five links of EVERY "
         "pool node + colour of members + root + first() are compared with the model's layout; non-trivial = distinct "
-        "script with at least one rotation case; every one of the 27 case tags must be hit")
+        "script with at least one rotation case; every one of the 27 case tags must be hit; SECOND model run: the same "
+        "scripts through the pointer-level model (Rb/RbPtr.v, assignment-by-assignment transliteration of rbtree.hpp on a "
+        "heap of hooks), same state line compared after every op, plus `raw` scripts that call the private helpers "
+        "rotateLeft/rotateRight directly (no oracle, pointer-level model only, FRG_ASSERT stops compared)")
 TRUSTED = ["extraction: ExtrOcamlBasic only; OCaml 4.13.1; comp/rb/driver.ml (prints layout; for pools > 64 through layout_list)",
            "correspondence harness comp/rb/harness.cpp (g++ -fsanitize=address,undefined, -fno-access-control)",
            "oracle: independent walker over the real nodes + reference sequence (std::vector, stable sorted insertion)",
-           "modelled, not verified: the individual pointer assignments (functional core + layout; every hook field is compared after every op)",
+           "pointer-level model Rb/RbPtr.v: transliteration of rbtree.hpp by hand (source order of assignments, FRG_ASSERT -> PAssert, "
+           "null dereference -> PUB, loops with fuel); tied to the source by the second correspondence run; its refinement to the "
+           "functional core is PROVED (Properties_C06_ptr.v) -- what remains compared only is listed there as _partial",
+           "comp/rb/driver.ml `ptr` mode: re-tabulates the heap function into an array after every op from the model's write log (extensionally the identity)",
            "Rb/RbCases.v (case tags) is statistics only, nothing proved about it"]
 ASSUMPTIONS = ["less is asymmetric and negatively transitive (strict weak order; Section hypotheses)",
                "insert only of elements not contained, remove / insert(before) only with contained elements (ids_fresh / documented precondition)",
@@ -85,8 +91,12 @@ def run(c):
         c.broken.append("rb harness does not compile against the repo: " + hlog[-1500:])
         return False
     thorough = c.tier == "thorough"
+    is_raw = lambda ls: bool(ls) and ls[0].split()[:2] == ["cfg", "raw"]
+    raw = []
     if c.replay:
         cases = vlib.read_replay(c.replay)
+        raw = [(cid, ls) for cid, ls in cases if is_raw(ls)]
+        cases = [(cid, ls) for cid, ls in cases if not is_raw(ls)]
     else:
         cases = gen.corpus()
         if okd:
@@ -114,6 +124,34 @@ def run(c):
     order = sorted(cases, key=lambda cl: -len(cl[1]))
     impl = vlib.run_cases(har, order, timeout=1500)
     model = vlib.run_cases(drv, order, timeout=1500) if okd else {}
+    # second model run: the pointer-level model (Rb/RbPtr.v) on the same scripts; the functional comparison below stays
+    pmodel = vlib.run_cases(drv, order, timeout=1500, args=["ptr"]) if okd else {}
+    for cid, ls in cases:
+        ri, rp = impl.get(cid), pmodel.get(cid)
+        if ri is None or ri.get("crash") or not okd:
+            continue
+        c.count("rb_ptr_cases")
+        if rp is None:
+            c.mismatch(cid, ls, "pointer-level model produced no output")
+        elif rp.get("crash"):
+            c.mismatch(cid, ls, "pointer-level model driver crashed: " + rp["crash"][-300:])
+        else:
+            d = vlib.first_diff(ri["lines"], rp["lines"])
+            if d:
+                c.mismatch(cid, ls, "pointer-level model (Rb/RbPtr.v): line %d: impl=%r ptr-model=%r" % d)
+    # scripts that call the private rotation helpers directly: pointer-level model only, no oracle in the harness
+    if not c.replay:
+        raw = gen.corpus_raw() + [("raw%d" % i, gen.gen_raw(c.rng)) for i in range(3000 if thorough else 400)]
+    if raw and okd:
+        rimpl = vlib.run_cases(har, raw, timeout=600)
+        rptr = vlib.run_cases(drv, raw, timeout=600, args=["ptr"])
+        for cid, ls in raw:
+            c.count("rb_raw_cases")
+            c.count("rb_raw_rotations_applied", sum(1 for a, b in zip(ls[1:], (rimpl.get(cid) or {}).get("lines", []))
+                                                    if a[:1] in "LR" and b.startswith("t ")))
+            if any(l == "assert" for l in (rimpl.get(cid) or {}).get("lines", [])):
+                c.count("rb_raw_assert_stops")
+        c.compare(raw, rimpl, rptr, lambda cid, lines, ri: None)
     rot = _strip_cases(c, model)
     if not c.replay and okd:
         missing = [CASE_NAMES[t] for t in REQUIRED if c.dist.get("rb_case_" + CASE_NAMES[t], 0) == 0]
